@@ -393,7 +393,36 @@ func isCellAddr(d string) bool { return strings.HasPrefix(d, "cell:") || strings
 
 func (ev *symEval) load(fr *symFrame, st *symState, addr SV, t types.Type) SV {
 	if v, ok := st.heap[addr.Desc]; ok {
+		if _, isStruct := t.Underlying().(*types.Struct); isStruct && v.K == "struct" && v.Desc != addr.Desc && v.Desc != "" {
+			// a struct variable that was assigned as a whole and had fields modified since: the value loaded now
+			// is a snapshot of the variable, not the object it was copied from
+			pre, modified := addr.Desc+".", false
+			for k, fv := range st.heap {
+				if strings.HasPrefix(k, pre) {
+					if ov, ok := st.heap[v.Desc+"."+strings.TrimPrefix(k, pre)]; !ok || ov.Desc != fv.Desc {
+						modified = true
+					}
+				}
+			}
+			if modified {
+				snap := ev.fresh("snapshot of " + strings.TrimPrefix(addr.Desc, "cell:"))
+				for k, fv := range st.heap {
+					if strings.HasPrefix(k, pre) {
+						st.heap[snap+"."+strings.TrimPrefix(k, pre)] = fv
+					}
+				}
+				st.heap[snap] = v
+				return SV{K: "struct", Desc: snap}
+			}
+		}
 		return v
+	}
+	if i := strings.LastIndex(addr.Desc, "."); i > 0 {
+		// field of a struct variable that was assigned as a whole: what the source object holds
+		base, f := addr.Desc[:i], addr.Desc[i:]
+		if bv, ok := st.heap[base]; ok && bv.K == "struct" && bv.Desc != base && bv.Desc != "" && !strings.HasPrefix(bv.Desc, "zero") {
+			return ev.load(fr, st, SV{K: "addr", Known: true, Desc: bv.Desc + f}, t)
+		}
 	}
 	if strings.HasPrefix(addr.Desc, "make#") {
 		base := addr.Desc
@@ -1435,3 +1464,5 @@ func selectFired(p Path) []string {
 	}
 	return out
 }
+
+func symTuple(elems ...SV) SV { return SV{K: "tuple", Desc: "t", Elems: elems} }
